@@ -124,6 +124,10 @@ def build_ops():
         ("linesplit(v,3)", lambda v: linesplit(v, 3)),
         ("v.join([v,'k',v])", lambda v: [v.join([v, "k", v])]),
         ("fmtstr('').join([v,'k',v])", lambda v: [fmtstr("").join([v, "k", v])]),
+        ("splice('',3,1) reversed range", lambda v: [v.splice("", 3, 1)]),
+        ("splice('Z',3,1) reversed range", lambda v: [v.splice("Z", 3, 1)]),
+        ("v.join([str(v),'k'])", lambda v: [v.join([str(v), "k"])]),
+        ("fmtstr('-').join(generator of str(v), v)", lambda v: [fmtstr("-").join(x for x in [str(v), v])]),
         ("v[1:1].join([v,v])", lambda v: [v[1:1].join([v, v])]),
         ("(v*0).join([v,'k'])", lambda v: [(v * 0).join([v, "k"])]),
     ]
